@@ -605,3 +605,525 @@ func (c *SegCase) Shape() (sig string, nontrivial bool) {
 	sb.WriteString("|" + strings.Join(names, " "))
 	return sb.String(), n > 1 || len(names) > 0
 }
+
+// ---------------------------------------------------------------------------------------
+// C34 corpus: hostile bytes for segment / index decoders
+
+// FuzzCase is one input for the "never crashes" check.
+type FuzzCase struct {
+	Idx     int
+	Kind    string   // "segment" or "index": which decoders take it
+	Family  string   // generator family
+	Name    string   // human-readable construction
+	Field   string   // mechanism label of the single substituted field ("" = none, "combo" = several)
+	Data    []byte   // the bytes handed to the decoder
+	Batches [][]byte // when non-nil: Data == BrokerSegment(Batches, C34CreatedMs) (a broker-written segment)
+}
+
+const (
+	C34CreatedMs = int64(1700000000123)
+	C34BaseTs    = int64(1700000000000)
+	C34MaxTs     = C34BaseTs + 1000 // every generated batch claims this max timestamp
+)
+
+// BrokerSegment wraps stored batches the way the broker does: header base offset / message
+// count and footer last offset are taken from the (client-supplied) batch headers.
+func BrokerSegment(batches [][]byte, createdMs int64) []byte {
+	var base, last int64
+	var count int32
+	for i, b := range batches {
+		bo := int64(binary.BigEndian.Uint64(b[0:8]))
+		if i == 0 {
+			base = bo
+		}
+		last = bo + int64(int32(binary.BigEndian.Uint32(b[23:27])))
+		count += int32(binary.BigEndian.Uint32(b[57:61]))
+	}
+	return RefSegment(base, count, createdMs, last, batches)
+}
+
+type fzTok struct {
+	mech   string // "" for raw bytes
+	varint bool
+	v      int64
+	raw    []byte
+}
+
+// recTokens splits a record into its wire fields; token 0 is the record length.
+func recTokens(r Rec) []fzTok {
+	t := []fzTok{{mech: "record-length", varint: true}, {raw: []byte{0}},
+		{mech: "timestamp-delta", varint: true, v: r.TimestampDelta}, {mech: "offset-delta", varint: true, v: int64(r.OffsetDelta)}}
+	nb := func(mech string, b []byte) {
+		if b == nil {
+			t = append(t, fzTok{mech: mech, varint: true, v: -1})
+			return
+		}
+		t = append(t, fzTok{mech: mech, varint: true, v: int64(len(b))}, fzTok{raw: b})
+	}
+	nb("key-length", r.Key)
+	nb("value-length", r.Value)
+	t = append(t, fzTok{mech: "header-count", varint: true, v: int64(len(r.Headers))})
+	for _, h := range r.Headers {
+		nb("header-key-length", []byte(h.Key))
+		nb("header-value-length", h.Value)
+	}
+	return t
+}
+
+// encodeTokens serialises a record; lenOverride == nil keeps the length consistent.
+func encodeTokens(t []fzTok, lenOverride *int64) []byte {
+	var body []byte
+	for _, k := range t[1:] {
+		if k.varint {
+			body = PutVarint(body, k.v)
+		} else {
+			body = append(body, k.raw...)
+		}
+	}
+	l := int64(len(body))
+	if lenOverride != nil {
+		l = *lenOverride
+	}
+	return append(PutVarint(nil, l), body...)
+}
+
+// remAfter is the number of record-body bytes that follow token i in the valid encoding.
+func remAfter(t []fzTok, i int) int64 {
+	n := 0
+	for _, k := range t[i+1:] {
+		if k.varint {
+			n += len(PutVarint(nil, k.v))
+		} else {
+			n += len(k.raw)
+		}
+	}
+	return int64(n)
+}
+
+func c34Batch(base int64, n int, payload []byte) []byte {
+	return MakeBatchRaw(payload, n, nil, BatchOpts{BaseOffset: base, BaseTimestamp: C34BaseTs, MaxTimestamp: I64(C34MaxTs)})
+}
+
+// C34ByteAlphabet is the symbol set of the short-string family.
+var C34ByteAlphabet = []byte{0x00, 0x01, 0x7f, 0x80, 0xff}
+
+// C34VarintValues is the substitution alphabet for a varint field with `rem` bytes after it:
+// enum.VarintBoundaries plus two "large but allocatable" lengths. heavy=false leaves out the
+// values whose unchecked use allocates >= 1 GiB (kept for a reduced set of fields in quick).
+func C34VarintValues(rem int64, heavy bool) []int64 {
+	var out []int64
+	seen := map[int64]bool{}
+	for _, v := range append(VarintBoundaries(rem), 1<<21, 1<<24, 1<<30-1) {
+		if seen[v] {
+			continue
+		}
+		seen[v] = true
+		if !heavy && (v == 1<<30-1 || v == 1<<31-1 || v == 1<<31) {
+			continue
+		}
+		out = append(out, v)
+	}
+	return out
+}
+
+func c34Seeds() [][][]Rec {
+	return [][][]Rec{
+		{{{Key: []byte("k"), Value: []byte("vv"), Headers: []Header{{Key: "h", Value: []byte("x")}}}}},
+		{
+			{{Key: []byte("k"), Value: []byte("v")}, {OffsetDelta: 1, TimestampDelta: 7, Key: nil, Value: []byte{}, Headers: []Header{{Key: "h", Value: nil}}}},
+			{{TimestampDelta: -1, Key: []byte{}, Value: []byte("value")}, {OffsetDelta: 1, TimestampDelta: 900, Key: []byte("kk"), Value: nil, Headers: []Header{{Key: "a", Value: []byte("1")}, {Key: "", Value: []byte{}}}}},
+		},
+	}
+}
+
+func c34SeedBatches(seed [][]Rec) (toks [][][]fzTok, bases []int64) {
+	base := int64(40)
+	for _, recs := range seed {
+		var bt [][]fzTok
+		for _, r := range recs {
+			bt = append(bt, recTokens(r))
+		}
+		toks = append(toks, bt)
+		bases = append(bases, base)
+		base += int64(len(recs))
+	}
+	return
+}
+
+func c34Assemble(toks [][][]fzTok, bases []int64, bi, ri int, rec []byte) [][]byte {
+	out := make([][]byte, len(toks))
+	for b := range toks {
+		var payload []byte
+		for r := range toks[b] {
+			if b == bi && r == ri {
+				payload = append(payload, rec...)
+			} else {
+				payload = append(payload, encodeTokens(toks[b][r], nil)...)
+			}
+		}
+		out[b] = c34Batch(bases[b], len(toks[b]), payload)
+	}
+	return out
+}
+
+type c34Fixed struct {
+	mech  string
+	off   int
+	width int
+}
+
+var c34BatchHeaderFields = []c34Fixed{
+	{"batch-base-offset", 0, 8}, {"batch-length", 8, 4}, {"leader-epoch", 12, 4}, {"batch-magic", 16, 1}, {"batch-crc", 17, 4},
+	{"batch-attributes", 21, 2}, {"last-offset-delta", 23, 4}, {"first-timestamp", 27, 8}, {"max-timestamp", 35, 8},
+	{"producer-id", 43, 8}, {"producer-epoch", 51, 2}, {"base-sequence", 53, 4}, {"record-count", 57, 4},
+}
+
+var c34SegmentFields = []c34Fixed{
+	{"segment-magic", 0, 4}, {"segment-version", 4, 2}, {"segment-flags", 6, 2}, {"segment-base-offset", 8, 8},
+	{"segment-message-count", 16, 4}, {"segment-created", 20, 8}, {"segment-reserved", 28, 4},
+	{"footer-crc", -16, 4}, {"footer-last-offset", -12, 8}, {"footer-magic", -4, 4},
+}
+
+func c34FixedValues(width int, valid int64, rem int64, heavy bool) []int64 {
+	var v []int64
+	switch width {
+	case 1:
+		v = []int64{0, 1, 3, 0x7f, 0xff}
+	case 2:
+		v = []int64{0, 1, 8, 0x7fff, -1, -0x8000}
+	case 4:
+		v = []int64{0, 1, 2, -1, valid + 1, valid - 1, rem, rem + 1, rem - 1, 48, 49, 1 << 16, 1 << 20, 1<<31 - 1, -(1 << 31)}
+	default:
+		v = []int64{0, 1, -1, 1 << 40, 1<<63 - 1, -(1 << 63)}
+	}
+	var out []int64
+	seen := map[int64]bool{valid: true}
+	for _, x := range v {
+		if seen[x] {
+			continue
+		}
+		seen[x] = true
+		out = append(out, x)
+	}
+	return out
+}
+
+func c34Patch(b []byte, off, width int, v int64) []byte {
+	out := append([]byte{}, b...)
+	if off < 0 {
+		off += len(out)
+	}
+	switch width {
+	case 1:
+		out[off] = byte(v)
+	case 2:
+		binary.BigEndian.PutUint16(out[off:], uint16(v))
+	case 4:
+		binary.BigEndian.PutUint32(out[off:], uint32(v))
+	case 8:
+		binary.BigEndian.PutUint64(out[off:], uint64(v))
+	}
+	return out
+}
+
+func c34Read(b []byte, off, width int) int64 {
+	if off < 0 {
+		off += len(b)
+	}
+	switch width {
+	case 1:
+		return int64(int8(b[off]))
+	case 2:
+		return int64(int16(binary.BigEndian.Uint16(b[off:])))
+	case 4:
+		return int64(int32(binary.BigEndian.Uint32(b[off:])))
+	}
+	return int64(binary.BigEndian.Uint64(b[off:]))
+}
+
+// C34ComboValues is the per-field alphabet of the combination family (valid value first).
+// Only values whose unchecked use is cheap (<= 2 MiB or an immediate makeslice panic) are in
+// it; the expensive boundary values are exercised by the single-field family.
+func C34ComboValues(valid, rem int64, thorough bool) []int64 {
+	v := []int64{valid, 0, -1, rem + 1, 1 << 21, 1 << 62, -(1 << 63)}
+	if thorough {
+		v = append(v, 1, rem, rem-1, -2, 1<<63-1)
+	}
+	var out []int64
+	seen := map[int64]bool{}
+	for _, x := range v {
+		if !seen[x] {
+			seen[x] = true
+			out = append(out, x)
+		}
+	}
+	return out
+}
+
+// C34Cases enumerates the corpus in a fixed order. want(idx) says whether element idx will be
+// used (elements that are not wanted are counted but not constructed). Families:
+//
+//	raw          every byte string of length <= 6 over C34ByteAlphabet, as a whole segment and as a whole index
+//	recarea      the strings of length <= 5 (thorough <= 6) as the record area of a broker-written one-batch segment
+//	             (recordCount 1; thorough also 2)
+//	prefix       every proper prefix of two valid segments; the same with the footer re-attached (body cut anywhere)
+//	subst        valid segments with one varint field of one record replaced by each C34VarintValues value,
+//	             batch length kept consistent, record length {re-computed, left as it was}
+//	hdr          valid segments with one fixed-width field of a batch header / the segment header / footer replaced
+//	combo        broker-written segment, one batch of two records + 4 pad bytes: every combination of
+//	             C34ComboValues for record length, key length, value length, header count, header key length,
+//	             header value length of record 0, x record count x batch length alphabets
+//	index-*      prefixes of a valid index; magic x version x entry count x rows present; interval values
+func C34Cases(thorough bool, want func(idx int) bool, f func(c *FuzzCase) bool) {
+	idx := 0
+	stop := false
+	emit := func(kind, fam, field string, build func() (string, []byte, [][]byte)) bool {
+		if want == nil || want(idx) {
+			name, data, batches := build()
+			if batches != nil {
+				data = BrokerSegment(batches, C34CreatedMs)
+			}
+			if !f(&FuzzCase{Idx: idx, Kind: kind, Family: fam, Name: name, Field: field, Data: data, Batches: batches}) {
+				stop = true
+			}
+		}
+		idx++
+		return !stop
+	}
+	str := func(seq []int) []byte {
+		b := make([]byte, len(seq))
+		for i, s := range seq {
+			b[i] = C34ByteAlphabet[s]
+		}
+		return b
+	}
+
+	// raw
+	for _, kind := range []string{"segment", "index"} {
+		kind := kind
+		Sequences(len(C34ByteAlphabet), 6, func(seq []int) bool {
+			return emit(kind, "raw", "", func() (string, []byte, [][]byte) { b := str(seq); return fmt.Sprintf("%x", b), b, nil })
+		})
+		if stop {
+			return
+		}
+	}
+	// recarea
+	rcs, recLen := []int{1}, 5
+	if thorough {
+		rcs, recLen = []int{1, 2}, 6
+	}
+	for _, rc := range rcs {
+		rc := rc
+		Sequences(len(C34ByteAlphabet), recLen, func(seq []int) bool {
+			return emit("segment", "recarea", "record-bytes", func() (string, []byte, [][]byte) {
+				b := str(seq)
+				return fmt.Sprintf("recordCount=%d records=%x", rc, b), nil, [][]byte{c34Batch(40, rc, b)}
+			})
+		})
+		if stop {
+			return
+		}
+	}
+	// prefix
+	seeds := c34Seeds()
+	for si, seed := range seeds {
+		toks, bases := c34SeedBatches(seed)
+		full := BrokerSegment(c34Assemble(toks, bases, -1, -1, nil), C34CreatedMs)
+		for n := 0; n < len(full); n++ {
+			si, n := si, n
+			if !emit("segment", "prefix", "truncated", func() (string, []byte, [][]byte) {
+				return fmt.Sprintf("seed%d[:%d]", si, n), append([]byte{}, full[:n]...), nil
+			}) {
+				return
+			}
+		}
+		body := full[SegHeaderLen : len(full)-SegFooterLen]
+		for n := 0; n < len(body); n++ {
+			si, n := si, n
+			if !emit("segment", "prefix", "body-truncated", func() (string, []byte, [][]byte) {
+				out := append([]byte{}, full[:SegHeaderLen+n]...)
+				return fmt.Sprintf("seed%d header+body[:%d]+footer", si, n), append(out, full[len(full)-SegFooterLen:]...), nil
+			}) {
+				return
+			}
+		}
+	}
+	// subst
+	for si, seed := range seeds {
+		toks, bases := c34SeedBatches(seed)
+		for bi := range toks {
+			for ri := range toks[bi] {
+				t := toks[bi][ri]
+				for ti := range t {
+					if !t[ti].varint {
+						continue
+					}
+					heavy := thorough || (si == 0)
+					rem := remAfter(t, ti)
+					for _, v := range C34VarintValues(rem, heavy) {
+						if ti != 0 && v == t[ti].v {
+							continue
+						}
+						for _, fix := range []bool{true, false} {
+							if ti == 0 && !fix {
+								continue
+							}
+							si, bi, ri, ti, v, fix := si, bi, ri, ti, v, fix
+							if !emit("segment", "subst", t[ti].mech, func() (string, []byte, [][]byte) {
+								mt := append([]fzTok{}, t...)
+								var rec []byte
+								if ti == 0 {
+									rec = encodeTokens(mt, &v)
+								} else {
+									mt[ti].v = v
+									if fix {
+										rec = encodeTokens(mt, nil)
+									} else {
+										old := remAfter(t, 0)
+										rec = encodeTokens(mt, &old)
+									}
+								}
+								return fmt.Sprintf("seed%d batch%d record%d %s#%d=%d (bytes after field: %d) recordLengthRecomputed=%v", si, bi, ri, t[ti].mech, ti, v, rem, fix), nil, c34Assemble(toks, bases, bi, ri, rec)
+							}) {
+								return
+							}
+						}
+					}
+				}
+			}
+		}
+	}
+	// hdr: fixed-width batch header fields (patched in the stored batch) and segment header / footer
+	for si, seed := range seeds {
+		toks, bases := c34SeedBatches(seed)
+		valid := c34Assemble(toks, bases, -1, -1, nil)
+		for bi := range valid {
+			for _, fd := range c34BatchHeaderFields {
+				cur := c34Read(valid[bi], fd.off, fd.width)
+				rem := int64(len(valid[bi]) - 12)
+				for _, v := range c34FixedValues(fd.width, cur, rem, true) {
+					si, bi, fd, v := si, bi, fd, v
+					if !emit("segment", "hdr", fd.mech, func() (string, []byte, [][]byte) {
+						bs := append([][]byte{}, valid...)
+						bs[bi] = c34Patch(valid[bi], fd.off, fd.width, v)
+						return fmt.Sprintf("seed%d batch%d %s=%d (was %d)", si, bi, fd.mech, v, cur), nil, bs
+					}) {
+						return
+					}
+				}
+			}
+		}
+		full := BrokerSegment(valid, C34CreatedMs)
+		for _, fd := range c34SegmentFields {
+			cur := c34Read(full, fd.off, fd.width)
+			for _, v := range c34FixedValues(fd.width, cur, int64(len(full)), true) {
+				si, fd, v := si, fd, v
+				if !emit("segment", "hdr", fd.mech, func() (string, []byte, [][]byte) {
+					return fmt.Sprintf("seed%d %s=%d (was %d)", si, fd.mech, v, cur), c34Patch(full, fd.off, fd.width, v), nil
+				}) {
+					return
+				}
+			}
+		}
+	}
+	// index
+	idxRows := []IdxEntry{{Offset: 40, Position: 32}, {Offset: 42, Position: 190}, {Offset: 44, Position: 300}}
+	validIdx := RefIndex(2, idxRows[:2])
+	for n := 0; n < len(validIdx); n++ {
+		n := n
+		if !emit("index", "index-prefix", "truncated", func() (string, []byte, [][]byte) {
+			return fmt.Sprintf("index[:%d]", n), append([]byte{}, validIdx[:n]...), nil
+		}) {
+			return
+		}
+	}
+	counts := []int64{0, 1, 2, 3, 4, -1, 1 << 16, 1 << 20, 1<<31 - 1, -(1 << 31)}
+	Product([]int{2, 3, 4, len(counts)}, func(ix []int) bool {
+		magicOK, ver, rows, cnt := ix[0] == 0, []int64{1, 0, 2}[ix[1]], ix[2], counts[ix[3]]
+		return emit("index", "index-subst", "index-entry-count", func() (string, []byte, [][]byte) {
+			b := RefIndex(2, idxRows[:rows])
+			if !magicOK {
+				copy(b[0:4], "XDI\x00")
+			}
+			b = c34Patch(b, 4, 2, ver)
+			b = c34Patch(b, 6, 4, cnt)
+			return fmt.Sprintf("index magicOK=%v version=%d entryCount=%d rowsPresent=%d", magicOK, ver, cnt, rows), b, nil
+		})
+	})
+	if stop {
+		return
+	}
+	for _, v := range []int64{0, 1, -1, 1<<31 - 1, -(1 << 31)} {
+		v := v
+		if !emit("index", "index-subst", "index-interval", func() (string, []byte, [][]byte) {
+			return fmt.Sprintf("index interval=%d", v), c34Patch(validIdx, 10, 4, v), nil
+		}) {
+			return
+		}
+	}
+	// combo
+	tmpl := recTokens(Rec{Key: []byte("k"), Value: []byte("vv"), Headers: []Header{{Key: "h", Value: []byte("x")}}})
+	second := encodeTokens(recTokens(Rec{OffsetDelta: 1, Key: []byte("z"), Value: []byte("y")}), nil)
+	var fieldTok []int
+	for i, k := range tmpl {
+		if k.varint && k.mech != "timestamp-delta" && k.mech != "offset-delta" {
+			fieldTok = append(fieldTok, i)
+		}
+	}
+	alpha := make([][]int64, len(fieldTok))
+	dims := make([]int, 0, len(fieldTok)+2)
+	for j, ti := range fieldTok {
+		valid := tmpl[ti].v
+		if ti == 0 {
+			valid = remAfter(tmpl, 0)
+		}
+		alpha[j] = C34ComboValues(valid, remAfter(tmpl, ti), thorough)
+		dims = append(dims, len(alpha[j]))
+	}
+	rcAlpha := []int64{2, 3}
+	blAlpha := []int64{0} // delta added to the consistent batch length
+	if thorough {
+		rcAlpha = []int64{2, 3, 0, -1, 1 << 16}
+		blAlpha = []int64{0, 1, -1}
+	}
+	dims = append(dims, len(rcAlpha), len(blAlpha))
+	Product(dims, func(ix []int) bool {
+		ix = append([]int{}, ix...)
+		return emit("segment", "combo", "combo", func() (string, []byte, [][]byte) {
+			mt := append([]fzTok{}, tmpl...)
+			var lenOv *int64
+			var desc []string
+			for j, ti := range fieldTok {
+				v := alpha[j][ix[j]]
+				if ti == 0 {
+					if ix[j] != 0 {
+						lenOv = &v
+						desc = append(desc, fmt.Sprintf("%s=%d", tmpl[ti].mech, v))
+					}
+					continue
+				}
+				mt[ti].v = v
+				if ix[j] != 0 {
+					desc = append(desc, fmt.Sprintf("%s=%d", tmpl[ti].mech, v))
+				}
+			}
+			payload := append(encodeTokens(mt, lenOv), second...)
+			payload = append(payload, "PPPP"...)
+			rc, bld := rcAlpha[ix[len(fieldTok)]], blAlpha[ix[len(fieldTok)+1]]
+			b := c34Batch(40, 2, payload)
+			if rc != 2 {
+				b = c34Patch(b, 57, 4, rc)
+				desc = append(desc, fmt.Sprintf("record-count=%d", rc))
+			}
+			if bld != 0 {
+				b = c34Patch(b, 8, 4, int64(len(b)-12)+bld)
+				desc = append(desc, fmt.Sprintf("batch-length%+d", bld))
+			}
+			if len(desc) == 0 {
+				desc = []string{"all valid"}
+			}
+			return "combo " + strings.Join(desc, " "), nil, [][]byte{b}
+		})
+	})
+}
